@@ -19,6 +19,7 @@ import Golib.Conf.FSLemmas
 import Golib.Conf.Locks
 import Golib.Conf.WriteExtras
 import Golib.Conf.SpacedLines
+import Golib.Conf.Observers
 
 namespace C18
 open Conf
@@ -114,6 +115,18 @@ theorem apply_merge (c : Cfg) (f : FileSt) (props : KV)
     show lookup (reload verFull c (some f)).1.m k = lookup c.m k
     rw [h4]
     exact lookup_applyMerge_skip c.m _ k (fun p hp _ e => hk p.2 (by rw [← e]; exact hp))
+
+/-- observers: a notification round calls every target registered at that moment exactly once
+    and nobody else — whether it was registered before the configuration was created, after it,
+    or between two reloads; a target replaced under its name is no longer called -/
+theorem observers_notified (o : Obs) (id : Nat) :
+    (o.run).count id =
+      if o.registered id && o.counts.any (fun p => p.1 == id) then o.count id + 1 else o.count id :=
+  Obs.run_count o id
+
+example :
+    let o := ((Obs.empty.add ['a'] 1).run.add ['b'] 2).run.add ['a'] 3 |>.run
+    (o.count 1, o.count 2, o.count 3) = (2, 2, 1) := by decide
 
 /-- for all histories of external edits, deletions and reloads: once the file stops changing
     (state `f`), one more reload makes every key=value of it visible.
